@@ -17,9 +17,9 @@ import (
 	"os"
 	"os/exec"
 	"runtime"
-	"syscall"
 	"strconv"
 	"strings"
+	"syscall"
 
 	"github.com/Tnze/go-mc/level"
 	"github.com/Tnze/go-mc/level/biome"
@@ -325,21 +325,21 @@ type sc struct {
 	p *level.PaletteContainer[level.BlocksState]
 }
 
-func (c sc) Get(i int) int                        { return int(c.p.Get(i)) }
-func (c sc) Set(i, v int)                         { c.p.Set(i, level.BlocksState(v)) }
-func (c sc) ReadFrom(r io.Reader) (int64, error)  { return c.p.ReadFrom(r) }
-func (c sc) WriteTo(w io.Writer) (int64, error)   { return c.p.WriteTo(w) }
-func (c sc) Info() level.VerifC12Info             { return level.VerifC12Inspect(c.p) }
+func (c sc) Get(i int) int                       { return int(c.p.Get(i)) }
+func (c sc) Set(i, v int)                        { c.p.Set(i, level.BlocksState(v)) }
+func (c sc) ReadFrom(r io.Reader) (int64, error) { return c.p.ReadFrom(r) }
+func (c sc) WriteTo(w io.Writer) (int64, error)  { return c.p.WriteTo(w) }
+func (c sc) Info() level.VerifC12Info            { return level.VerifC12Inspect(c.p) }
 
 type bc struct {
 	p *level.PaletteContainer[level.BiomesState]
 }
 
-func (c bc) Get(i int) int                        { return int(c.p.Get(i)) }
-func (c bc) Set(i, v int)                         { c.p.Set(i, level.BiomesState(v)) }
-func (c bc) ReadFrom(r io.Reader) (int64, error)  { return c.p.ReadFrom(r) }
-func (c bc) WriteTo(w io.Writer) (int64, error)   { return c.p.WriteTo(w) }
-func (c bc) Info() level.VerifC12Info             { return level.VerifC12Inspect(c.p) }
+func (c bc) Get(i int) int                       { return int(c.p.Get(i)) }
+func (c bc) Set(i, v int)                        { c.p.Set(i, level.BiomesState(v)) }
+func (c bc) ReadFrom(r io.Reader) (int64, error) { return c.p.ReadFrom(r) }
+func (c bc) WriteTo(w io.Writer) (int64, error)  { return c.p.WriteTo(w) }
+func (c bc) Info() level.VerifC12Info            { return level.VerifC12Inspect(c.p) }
 
 var gbits [2]int // block.BitsPerBlock, biome.BitsPerBiome
 var regSize [2]int
@@ -1372,7 +1372,13 @@ func allocChildMain() {
 	kind, _ := strconv.Atoi(os.Args[2])
 	n, _ := strconv.Atoi(os.Args[3])
 	in, _ := hex.DecodeString(os.Args[4])
-	lim := syscall.Rlimit{Cur: 1 << 30, Max: 1 << 30}
+	as := uint64(1 << 30)
+	if len(os.Args) > 5 {
+		if v, err := strconv.ParseUint(os.Args[5], 10, 64); err == nil {
+			as = v
+		}
+	}
+	lim := syscall.Rlimit{Cur: as, Max: as}
 	_ = syscall.Setrlimit(syscall.RLIMIT_AS, &lim)
 	defer func() {
 		if r := recover(); r != nil {
@@ -1387,8 +1393,8 @@ func allocChildMain() {
 	os.Exit(0)
 }
 
-func runAllocChild(kind, n int, in []byte) (ok bool, how string) {
-	cmd := exec.Command(os.Args[0], "-c12child", strconv.Itoa(kind), strconv.Itoa(n), hex.EncodeToString(in))
+func runAllocChildAS(kind, n int, in []byte, as uint64) (ok bool, how string) {
+	cmd := exec.Command(os.Args[0], "-c12child", strconv.Itoa(kind), strconv.Itoa(n), hex.EncodeToString(in), strconv.FormatUint(as, 10))
 	out, err := cmd.CombinedOutput()
 	if err == nil {
 		return true, ""
@@ -1398,6 +1404,26 @@ func runAllocChild(kind, n int, in []byte) (ok bool, how string) {
 		msg = msg[:i]
 	}
 	return false, fmt.Sprintf("%v: %s", err, msg)
+}
+
+// runAllocChild: the hostile input in a child under an address-space limit. A child that dies is only
+// evidence against the decoder if a CONTROL child - same binary, same limit, a one-entry palette - survives:
+// on a loaded machine the Go runtime itself can fail to map memory or start a thread under a tight limit
+// (seen once as "cannot allocate memory" on the unchanged tree). When the control dies too the limit is
+// raised (1 -> 4 -> 12 GiB: a declared length of 2^31-1 still asks for 16 GiB or more); if no limit gives a
+// living control the case is skipped with a note, never reported.
+func runAllocChild(kind, n int, in []byte) (ok bool, how string, skipped bool) {
+	control := []byte{in[0], 1, 0}
+	for _, as := range []uint64{1 << 30, 4 << 30, 12 << 30} {
+		ok, how = runAllocChildAS(kind, n, in, as)
+		if ok {
+			return true, "", false
+		}
+		if cok, _ := runAllocChildAS(kind, n, control, as); cok {
+			return false, how, false
+		}
+	}
+	return false, how, true
 }
 
 // a bits byte of every indirect class, a declared palette length far above what the width can index
@@ -1421,9 +1447,12 @@ func (g *gen) allocHistory(kind int, bb int, declared int, behind int) {
 	safe := true
 	if declared >= 1<<24 {
 		// gigabytes if the length were allocated: first in a child process with an address-space limit
-		if ok, how := runAllocChild(kind, n, in); !ok {
+		if ok, how, skipped := runAllocChild(kind, n, in); skipped {
 			safe = false
-			g.o.Fail("C12.alloc.palette", "%s ReadFrom(%s) in a child process under a 1 GiB limit: %s", kindName[kind], hx.Hex(in), how)
+			g.o.Note("alloc child: control input died as well at every address-space limit (%s): case %s not judged", how, hx.Hex(in))
+		} else if !ok {
+			safe = false
+			g.o.Fail("C12.alloc.palette", "%s ReadFrom(%s) in a child process under an address-space limit (a one-entry palette survives the same limit): %s", kindName[kind], hx.Hex(in), how)
 		}
 	}
 	if safe {
